@@ -12,6 +12,7 @@ pub mod verif_spec {
     pub use crate::verif_spec_wrath::*;
     pub use crate::verif_spec_key::*;
     pub use crate::verif_spec_world::*;
+    pub use crate::verif_spec_srp::*;
 
     pub open spec fn be16(x: u16) -> Seq<u8> { seq![(x / 256) as u8, (x % 256) as u8] }
     pub open spec fn le16(x: u16) -> Seq<u8> { seq![(x % 256) as u8, (x / 256) as u8] }
